@@ -87,7 +87,10 @@ class TypeScriptMagicNumberAnalyzer(TypeScriptBaseAnalyzer):  # thailint: ignore
         text = self.extract_node_text(node)
         try:
             # Try int first
-            if "." not in text and "e" not in text.lower():
+            if text.endswith("n"):
+                text = text[:-1]  # BigInt literal
+            lowered = text.lower()
+            if lowered.startswith(("0x", "0o", "0b")) or ("." not in text and "e" not in lowered):
                 return int(text, 0)  # Handles hex, octal, binary
             # Otherwise float
             return float(text)
